@@ -398,6 +398,7 @@ def main(argv: list[str] | None = None) -> int:
     pid = args.property.upper()
     seed = args.seed if args.seed is not None else int(os.environ.get("VERIF_SEED", "1") or "1")
     tier = args.tier
+    os.environ["VERIF_TIER_EFFECTIVE"] = tier
     t0 = time.time()
 
     try:
